@@ -177,7 +177,7 @@ func loadScenarios() ([]*scenario, error) {
 		return nil, fmt.Errorf("only %d runner scenarios found under %s", len(order), dir)
 	}
 	sort.Strings(order)
-	out := []*scenario{embeddedScenario(), recipientsScenario()}
+	out := []*scenario{embeddedScenario(), recipientsScenario(), cacheKeysScenario()}
 	for _, n := range order {
 		out = append(out, byName[n])
 	}
@@ -394,7 +394,7 @@ func runScript(sa flows.SessionAssets, eng flows.Engine, sc *scenario, scr *scri
 		for j, name := range sc.flowNames {
 			if (j+gi)%2 == 0 {
 				f, err := sa.Flows().FindByName(name)
-				fmt.Fprintf(&sb, "find %q -> %v %v\n", name, f != nil, err != nil)
+				fmt.Fprintf(&sb, "find %q -> %s %v\n", name, foundFlow(f), err != nil)
 			}
 			if resolver != nil && name != "" {
 				q, err := contactql.ParseQuery(envs.NewBuilder().Build(), fmt.Sprintf("flow = %q", name), resolver)
@@ -406,7 +406,7 @@ func runScript(sa flows.SessionAssets, eng flows.Engine, sc *scenario, scr *scri
 			}
 			if (j+gi)%2 == 1 {
 				f, err := sa.Flows().FindByName(name)
-				fmt.Fprintf(&sb, "find %q -> %v %v\n", name, f != nil, err != nil)
+				fmt.Fprintf(&sb, "find %q -> %s %v\n", name, foundFlow(f), err != nil)
 			}
 		}
 		return sb.String()
@@ -537,6 +537,13 @@ func runScript(sa flows.SessionAssets, eng flows.Engine, sc *scenario, scr *scri
 		add("evaluate", sb.String())
 	}
 	return
+}
+
+func foundFlow(f flows.Flow) string {
+	if f == nil {
+		return "none"
+	}
+	return string(f.UUID()) + " " + f.Name()
 }
 
 func sortLines(s string) string {
@@ -1017,7 +1024,7 @@ func main() {
 
 	// every process starts (process-cold round) with a different scenario; the embedded one and those that
 	// exercise lazily migrated / legacy flows, router tests and query groups come first
-	first := []string{"embedded", "recipients", "router_tests", "legacy_subflow", "smart_groups", "all_actions", "subflow", "legacy_registration", "expirations", "two_questions", "webhook_results"}
+	first := []string{"embedded", "recipients", "cache_keys", "router_tests", "legacy_subflow", "smart_groups", "all_actions", "subflow", "legacy_registration", "expirations", "two_questions", "webhook_results"}
 	rs := r.Fork("scenarios")
 	specs := make([]childSpec, nProc)
 	for p := 0; p < nProc; p++ {
@@ -1038,6 +1045,9 @@ func main() {
 			}
 			if f != "embedded" {
 				list = append(list, "embedded")
+			}
+			if f != "cache_keys" {
+				list = append(list, "cache_keys", "cache_keys")
 			}
 			for len(list) < nRounds {
 				list = append(list, hx.Pick(rs, names))
@@ -1209,7 +1219,18 @@ func main() {
 				st = st[:i]
 			}
 			st = strings.TrimRight(st, "0123456789")
-			res.Fail("solo-diff:"+st, map[string]any{"process": p, "goroutines": cr.spec.N, "seed": cr.spec.Seed, "scenario": d.Scenario, "script": d.Script, "round": d.Round, "goroutine": d.Goroutine, "stage": d.Stage},
+			cls := "solo-diff:" + st
+			switch {
+			case st == "byname":
+				// what a flow NAME resolves to differs from the solo run: the cache is consulted before the source
+				cls = "cache-transparency:find-by-name"
+			case d.Scenario == "cache_keys" && (st == "start" || st == "resume"):
+				// a session ran another definition than alone: the cache handed out a flow loaded under another key
+				cls = "cache-transparency:get-by-uuid"
+			case d.Scenario == "cache_keys":
+				cls = "cache-transparency:" + st
+			}
+			res.Fail(cls, map[string]any{"process": p, "goroutines": cr.spec.N, "seed": cr.spec.Seed, "scenario": d.Scenario, "script": d.Script, "round": d.Round, "goroutine": d.Goroutine, "stage": d.Stage},
 				fmt.Sprintf("solo: …%s…\nconcurrent: …%s…", d.Solo, d.Conc))
 		}
 		for _, ri := range cres.Rounds {
